@@ -460,7 +460,10 @@ func sameBase(a, b ssa.Value) bool {
 }
 
 // ruleStatusCheck: sendRequest returns success only after the HTTP status was compared
-// against both bounds.
+// against both bounds. The error it returns may be the result of a helper of the module that
+// is handed the status code (or the response): `return body, checkStatus(resp.StatusCode)` —
+// then the nil returns of that helper are the success returns, and each of them lies behind
+// the comparisons inside the helper.
 func ruleStatusCheck(r *Run) {
 	const rule = "R13i.status"
 	name := "queryer.(*MultiOpQueryer).sendRequest"
@@ -518,83 +521,122 @@ func ruleStatusCheck(r *Run) {
 		}
 		return out
 	}
-	// the branches of sendRequest that test the status: directly, or through a predicate of the
-	// module that is handed the status code or the response
+	// statusOfParam: how a function of the module that is handed `a` as its i-th argument sees
+	// the status: the parameter itself (a is the status code), or the StatusCode of the
+	// parameter (a is the response)
+	statusOfParam := func(callee *ssa.Function, i int, a ssa.Value, isStatus func(ssa.Value) bool) func(ssa.Value) bool {
+		if i >= len(callee.Params) {
+			return nil
+		}
+		param := callee.Params[i]
+		switch {
+		case isStatus(a):
+			return func(v ssa.Value) bool { return v == ssa.Value(param) }
+		case strings.HasSuffix(a.Type().String(), "net/http.Response"):
+			return func(v ssa.Value) bool {
+				ld, ok := v.(*ssa.UnOp)
+				if !ok || ld.Op != token.MUL {
+					return false
+				}
+				fa, ok := ld.X.(*ssa.FieldAddr)
+				return ok && fieldOf(fa) != nil && fieldOf(fa).Name() == "StatusCode" && fa.X == ssa.Value(param)
+			}
+		}
+		return nil
+	}
 	type test struct {
 		iff *ssa.If
 		f   facts
 	}
-	var tests []test
-	for _, ins := range allInstrs(fn) {
-		iff, ok := ins.(*ssa.If)
-		if !ok {
-			continue
+	// check looks at the success returns of f (f is sendRequest, or a helper whose result
+	// sendRequest returns as its error) and answers how many it saw.
+	var check func(f *ssa.Function, isStatus func(ssa.Value) bool, depth int) int
+	check = func(f *ssa.Function, isStatus func(ssa.Value) bool, depth int) int {
+		fname := name
+		if f != fn {
+			fname = fnName(f)
 		}
-		cond := iff.Cond
-		if u, ok := cond.(*ssa.UnOp); ok && u.Op == token.NOT {
-			cond = u.X
-		}
-		switch c := cond.(type) {
-		case *ssa.BinOp:
-			if f := scan(fn, isStatusLoad, c); f.lower || f.upper || f.div {
-				tests = append(tests, test{iff, f})
-			}
-		case *ssa.Call:
-			pred := c.Call.StaticCallee()
-			if pred == nil || !inModule(pred) || pred.Blocks == nil {
+		// the branches of f that test the status: directly, or through a predicate of the
+		// module that is handed the status code or the response
+		var tests []test
+		for _, ins := range allInstrs(f) {
+			iff, ok := ins.(*ssa.If)
+			if !ok {
 				continue
 			}
-			for i, a := range c.Call.Args {
-				if i >= len(pred.Params) {
+			cond := iff.Cond
+			if u, ok := cond.(*ssa.UnOp); ok && u.Op == token.NOT {
+				cond = u.X
+			}
+			switch c := cond.(type) {
+			case *ssa.BinOp:
+				if fc := scan(f, isStatus, c); fc.lower || fc.upper || fc.div {
+					tests = append(tests, test{iff, fc})
+				}
+			case *ssa.Call:
+				pred := c.Call.StaticCallee()
+				if pred == nil || !inModule(pred) || pred.Blocks == nil {
 					continue
 				}
-				param := pred.Params[i]
-				switch {
-				case isStatusLoad(a):
-					tests = append(tests, test{iff, scan(pred, func(v ssa.Value) bool { return v == ssa.Value(param) }, nil)})
-				case strings.HasSuffix(a.Type().String(), "net/http.Response"):
-					tests = append(tests, test{iff, scan(pred, func(v ssa.Value) bool {
-						ld, ok := v.(*ssa.UnOp)
-						if !ok || ld.Op != token.MUL {
-							return false
-						}
-						fa, ok := ld.X.(*ssa.FieldAddr)
-						return ok && fieldOf(fa) != nil && fieldOf(fa).Name() == "StatusCode" && fa.X == ssa.Value(param)
-					}, nil)})
+				for i, a := range c.Call.Args {
+					if st := statusOfParam(pred, i, a, isStatus); st != nil {
+						tests = append(tests, test{iff, scan(pred, st, nil)})
+					}
 				}
 			}
 		}
-	}
-	nSucc := 0
-	for _, ret := range returnsOf(fn) {
-		success := true
-		for i, res := range retVals(ret) {
-			if isErrorish(fn.Signature.Results().At(i).Type()) && !isNilConst(unwrap(res)) {
+		nSucc := 0
+		for _, ret := range returnsOf(f) {
+			success := true
+			for i, res := range retVals(ret) {
+				if !isErrorish(f.Signature.Results().At(i).Type()) || isNilConst(unwrap(res)) {
+					continue
+				}
 				success = false
-			}
-		}
-		if !success {
-			continue
-		}
-		nSucc++
-		var have facts
-		for _, t := range tests {
-			for _, s := range t.iff.Block().Succs {
-				if len(s.Preds) == 1 && (s == ret.Block() || s.Dominates(ret.Block())) {
-					have.lower = have.lower || t.f.lower
-					have.upper = have.upper || t.f.upper
-					have.div = have.div || t.f.div
+				// the error is worked out from the status by a helper of the module: its nil
+				// returns are success returns of sendRequest
+				call, ok := unwrap(res).(*ssa.Call)
+				if !ok || depth >= 2 {
+					continue
+				}
+				h := call.Call.StaticCallee()
+				if h == nil || !inModule(h) || h.Blocks == nil || h.Signature.Results().Len() != 1 {
+					continue
+				}
+				for k, a := range call.Call.Args {
+					if st := statusOfParam(h, k, a, isStatus); st != nil {
+						nSucc += check(h, st, depth+1)
+						break
+					}
 				}
 			}
+			if !success {
+				continue
+			}
+			nSucc++
+			var have facts
+			for _, t := range tests {
+				for _, s := range t.iff.Block().Succs {
+					if len(s.Preds) == 1 && (s == ret.Block() || s.Dominates(ret.Block())) {
+						have.lower = have.lower || t.f.lower
+						have.upper = have.upper || t.f.upper
+						have.div = have.div || t.f.div
+					}
+				}
+			}
+			site := r.P.pos(retPos(ret))
+			switch {
+			case (have.lower && have.upper) || have.div:
+				r.OK(rule, fname, "success return", site, "dominated by a test of the HTTP status against both ends of the 2xx range (200 and 299/300, or status/100 == 2)")
+			case f == fn:
+				r.Bad(rule, fname, "success return", site, "sendRequest can report success without having compared resp.StatusCode against both ends of the 2xx range (200 below, 299 above): a non-2xx answer would be treated as a result")
+			default:
+				r.Bad(rule, fname, "success return", site, "sendRequest returns the result of "+fname+" as its error, and "+fname+" can return nil on a path that is not decided by comparisons of the status code it is handed with both ends of the 2xx range (200 below, 299 above): a non-2xx answer would be treated as a result")
+			}
 		}
-		site := r.P.pos(retPos(ret))
-		if (have.lower && have.upper) || have.div {
-			r.OK(rule, name, "success return", site, "dominated by a test of the HTTP status against both ends of the 2xx range (200 and 299/300, or status/100 == 2)")
-		} else {
-			r.Bad(rule, name, "success return", site, "sendRequest can report success without having compared resp.StatusCode against both ends of the 2xx range (200 below, 299 above): a non-2xx answer would be treated as a result")
-		}
+		return nSucc
 	}
-	r.AtLeast(rule, "success returns of sendRequest", nSucc, 1)
+	r.AtLeast(rule, "success returns of sendRequest", check(fn, isStatusLoad, 0), 1)
 	// and the error of client.Do itself is covered by R6
 }
 
